@@ -4,6 +4,7 @@ package iocopy
 
 import (
 	"errors"
+	"fmt"
 	"io"
 	"net"
 	"regexp"
@@ -56,6 +57,8 @@ type c12Conn struct {
 	endErr      error
 	endWithData bool // the last chunk is returned together with endErr (n>0, err)
 	endSeen     bool // the end was reported to the reader at least once
+	transient     error // reported ONCE when the queue is empty; the stream continues afterwards
+	transientSeen bool
 	onEnd       func()
 	closed      bool
 	consumed    int
@@ -119,6 +122,29 @@ func (c *c12Conn) FeedEnd(err error) {
 	c.mu.Unlock()
 }
 
+// FeedTransient arms a one-shot error (e.g. a read timeout) delivered after the queued data.
+func (c *c12Conn) FeedTransient(err error) {
+	c.mu.Lock()
+	c.transient = err
+	c.cond.Broadcast()
+	c.mu.Unlock()
+}
+
+func (c *c12Conn) TransientSeen() bool {
+	c.mu.Lock()
+	defer c.mu.Unlock()
+	return c.transientSeen
+}
+
+// c12NetErr is a net.Error of a chosen class.
+type c12NetErr struct{ timeout, temporary bool }
+
+func (e c12NetErr) Error() string {
+	return fmt.Sprintf("c12: i/o timeout (scripted net.Error timeout=%v temporary=%v)", e.timeout, e.temporary)
+}
+func (e c12NetErr) Timeout() bool   { return e.timeout }
+func (e c12NetErr) Temporary() bool { return e.temporary }
+
 func (c *c12Conn) Read(p []byte) (int, error) {
 	c.reads.Add(1)
 	if len(p) == 0 {
@@ -150,6 +176,13 @@ func (c *c12Conn) Read(p []byte) (int, error) {
 			}
 			c.mu.Unlock()
 			return n, nil
+		}
+		if c.transient != nil {
+			err := c.transient
+			c.transient = nil
+			c.transientSeen = true
+			c.mu.Unlock()
+			return 0, err
 		}
 		if c.ended {
 			first := !c.endSeen
